@@ -170,28 +170,17 @@ def run(ctx, env):
                 why = "decoding at %s dominated by !get_fields().is_empty() (%s)" % ([b.line(x) for x in dom][:2], b.line(cb))
         ctx.ob("R7.3", d + "::parse_be", "empty-template-rejected", ok, why, site=site(b.span))
 
-    # R7.4
-    pf = prog.body("variable_versions::v9::FlowSetParser::parse_flowsets")
-    if ctx.anchor("R7.4", "variable_versions::v9::FlowSetParser::parse_flowsets", pf):
-        # inside its closure(s): FlowSet::parse result flows only into Try::branch
-        ok = False
-        why = "FlowSet::parse not found under parse_flowsets"
-        for p, b in prog.bodies.items():
-            if not p.startswith(pf.path):
-                continue
-            for blk, t, c in b.calls():
-                if c is not None and c.local and c.path.startswith("variable_versions::v9::FlowSet::parse"):
-                    d = t["dest"]
-                    uses = uses_of_local(b, d["l"])
-                    only_branch = len(uses) == 1 and uses[0][0] == "callarg" and Callee(uses[0][2][0]["func"]["fn"]).nsyn in ("std::ops::Try::branch",)
-                    ok = only_branch
-                    why = "FlowSet::parse(..)? — result consumed only by Try::branch" if ok else "FlowSet::parse result is inspected/ swallowed: %s" % [u[0] for u in uses]
-        ctx.ob("R7.4", pf.path, "v9-propagates-flowset-error", ok, why, site=site(pf.span))
-        # and parse_flowsets `?`s the fold
-        ret = an.local(pf, 0)
-        e = peel(an.interp._through("ok", ret))
-        folds = find(e, lambda n: n[0] == "ok" and peel(n[1])[0] == "call" and peel(n[1])[2] is not None and peel(n[1])[2].nsyn in ("std::iter::Iterator::try_fold",))
-        ctx.ob("R7.4", pf.path, "v9-fold-result-propagated", bool(folds), "Ok value derives from try_fold(..)? : %s" % canon(e)[:160], site=site(pf.span))
+    # R7.4 (role-based: wherever v9::FlowSet::parse is called on the parse path, its error must be propagated with `?`)
+    nsites = 0
+    for pth, bb in sorted(bodies.items()):
+        for blk, t, c in bb.calls():
+            if c is not None and c.local and c.path.startswith("variable_versions::v9::FlowSet::parse") and not bb.path.startswith("variable_versions::v9::FlowSet::parse"):
+                nsites += 1
+                uses = uses_of_local(bb, t["dest"]["l"])
+                only_branch = len(uses) == 1 and uses[0][0] == "callarg" and Callee(uses[0][2][0]["func"]["fn"]).nsyn in ("std::ops::Try::branch",)
+                ctx.ob("R7.4", "variable_versions::v9::FlowSet::parse", "v9-propagates-flowset-error", only_branch,
+                       "called from %s: %s" % (bb.path, "result consumed only by `?`" if only_branch else "result is inspected / swallowed: %s" % [u[0] for u in uses]), site=bb.line(blk))
+    ctx.floor("R7.4", "v9", "call sites of v9::FlowSet::parse", nsites, 1)
     ib = prog.body("variable_versions::ipfix::IPFix::parse_be")
     if ctx.anchor("R7.4", "variable_versions::ipfix::IPFix::parse_be", ib):
         ok = False
